@@ -18,9 +18,9 @@ ASSUMPTIONS = ["well-formed regime re-derived from raw events by hv/wf.py (viola
 PLAN = {"quick": {"shards": 16, "cases": 1280, "timeout": 600}, "thorough": {"shards": 16, "cases": 12000, "timeout": 3000}}
 FLOORS = {
     "quick": {"distinct_nontrivial": 150, "transform_correlation_to_index.post": 300, "linked_rows": 3000, "zero_sentinels": 300,
-              "sync_links": 100, "rows_gt_127": 20},
+              "sync_links": 100, "rows_gt_127": 20, "linked_row_ids_wider_than_correlation_ids": 5},
     "thorough": {"distinct_nontrivial": 3000, "transform_correlation_to_index.post": 6000, "linked_rows": 60000, "zero_sentinels": 6000,
-                 "sync_links": 2000, "rows_gt_127": 400},
+                 "sync_links": 2000, "rows_gt_127": 400, "linked_row_ids_wider_than_correlation_ids": 100},
 }
 
 
@@ -82,6 +82,8 @@ def run_case(case: Dict[str, Any], ctx: Any) -> core.CaseResult:
             present = set(df["index"].tolist())
             if len(df) > 127:
                 res.counters["rows_gt_127"] += 1
+                if max((e.corr for e in m), default=0) < 128 and any(x > 127 for x in exp.values()):
+                    res.counters["linked_row_ids_wider_than_correlation_ids"] += 1
             nbad = 0
             for i, ic in drv.rows(df, ["index", "index_correlation"]):
                 e = byid.get(i)
